@@ -3,6 +3,7 @@ package gosym
 import (
 	"fmt"
 	"os"
+	"strings"
 	"go/constant"
 	"go/token"
 	"go/types"
@@ -274,8 +275,11 @@ func (e *Engine) runSteps(g *G) (yield bool) {
 				yield = false
 				return
 			}
-			if _, ok := r.(pathEnd); ok {
-				panic(r)
+			if pe, ok := r.(pathEnd); ok {
+				if pe.kind == endUnsupported && instr != nil && !strings.Contains(pe.msg, " at /") {
+					pe.msg += " at " + e.prog.Fset.Position(instr.Pos()).String() + " in " + fr.fn.String()
+				}
+				panic(pe)
 			}
 			if os.Getenv("VF_CRASH") != "" || instr == nil {
 				panic(r)
